@@ -644,8 +644,8 @@ pub enum ShaderStorage<'a, 'b> {
 // a reference to it. The goal is to avoid a heap allocation but the end
 // result is pretty ugly.
 pub fn choose_shader<'a, 'b, 'c>(ti: &Transform, src: &'b Source<'c>, alpha: f32, shader_storage: &'a mut ShaderStorage<'b, 'c>) -> &'a dyn Shader {
-    // XXX: clamp alpha
-    let alpha = (alpha * 255. + 0.5) as u32;
+    // the float to int cast saturates at 0 (also for NaN), so only the top needs clamping
+    let alpha = ((alpha * 255. + 0.5) as u32).min(255);
 
     *shader_storage = match src {
         Source::Solid(c) => {
